@@ -8,6 +8,8 @@ from .core import *  # noqa
 from .core import _NOCONST
 from .interp import VEmptyList, VEmptySet, TOptObj, TDictRec, Interp, SpecUndef, _has_nan
 from . import frontend
+from . import dyn as D
+from .dyn import VDyn, TDyn
 from . import jsonmodel as JM
 from . import jsontree
 from .jsontree import VJDict, VJSet, VJList, VWStr
@@ -127,6 +129,10 @@ def seq_copy(s):
 def contains(I, cont, x):
     if not I.spec:
         cont = I.force(cont)
+        if isinstance(x, VDyn):
+            x = I.force(x)
+    if isinstance(cont, VDyn):
+        raise Unsupported("'in' on a Dyn value in a specification (use as_dict/as_list/as_str)")
     if isinstance(cont, VEmptySet):
         return z3.BoolVal(False)
     if isinstance(cont, VDRec):
@@ -141,6 +147,14 @@ def contains(I, cont, x):
     if isinstance(cont, (VJSet, VJList)):
         return jsontree.set_contains(I, cont, x)
     if isinstance(cont, VMap) or isinstance(cont, VSet):
+        if isinstance(x, VDyn):
+            if cont.kt is TStr or cont.kt is D.TDKey:
+                return z3.And(D.is_str(x.e), z3.Select(cont.dom, unwrap(VStr(D.js(x.e)), cont.kt)))
+            raise Unsupported("Dyn key tested against a non-string keyed container in a specification")
+        if not I.spec and isinstance(x, (VSeq, VMap, VSet, VDictRec, VEmptyList)):
+            I.raise_exc("TypeError", "unhashable type")
+        if isinstance(cont, VMap) and isinstance(x, VStr) and getattr(cont, "from_dyn", False):
+            D.key_fact(I, cont, unwrap(x, cont.kt))
         if isinstance(x, VOpt) and not isinstance(cont.kt, TOpt) and x.t.inner == cont.kt:
             return z3.And(z3.Not(x.is_none()), z3.Select(cont.dom, x.t.dt.val(x.e)))
         try:
@@ -215,10 +229,18 @@ def subscript(I, o, k):
     if isinstance(o, VUndef) or isinstance(k, VUndef):
         return VUndef()
     if not I.spec:
+        if isinstance(o, VDyn) and isinstance(k, VStr):
+            o = D.exec_tag_view(I, o, "dict")
+            if o is None:
+                I.raise_exc("TypeError", "indices must be integers / object is not subscriptable")
         o = I.force(o)
         k = I.force(k)
     elif isinstance(o, VOpt):
         o = o.val()
+    if isinstance(o, VDyn):     # spec mode only (exec mode forced above): choose the view by the key's type
+        o = D.spec_view(I, o, "dict" if isinstance(k, VStr) else "list")
+    if isinstance(k, VDyn):
+        k = D.spec_view(I, k, "str" if isinstance(o, (VMap, VDictRec)) else "int")
     if isinstance(o, VSeq):
         if not is_num(k) or isinstance(k, VReal):
             I.raise_exc("TypeError", "list indices must be integers")
@@ -244,6 +266,7 @@ def subscript(I, o, k):
             return o.vt.wrap(val)
         I.require_defined(z3.Select(o.dom, kk), "KeyError", "missing key")
         I.ver.on_map_read(I, o, kk)
+        D.key_fact(I, o, kk)
         return o.get(kk)
     if isinstance(o, VTuple):
         c = const_of(k)
@@ -302,6 +325,8 @@ def subscript(I, o, k):
             return f.val()
         return o.fields[c]
     if isinstance(o, VStr):
+        if not is_num(k) or isinstance(k, VReal):
+            I.raise_exc("TypeError", "string indices must be integers")
         idx = to_int(k)
         n = z3.Length(o.e)
         idx2 = z3.If(idx < 0, idx + n, idx)
@@ -611,12 +636,20 @@ STR_METHODS = {"lower", "upper", "strip", "split", "join", "startswith", "endswi
 def get_attribute(I, o, name, default=_NOCONST):
     if isinstance(o, VUndef):
         return VUndef()
+    if not I.spec and isinstance(o, VDyn):
+        o = D.exec_attr_view(I, o, name)
+        if o is None:
+            if default is not _NOCONST:
+                return default
+            I.raise_exc("AttributeError", name)
     if not I.spec:
         o = I.force(o)
     elif isinstance(o, VOpt):
         o = o.val()
     elif isinstance(o, VOptObj):
         o = o.obj
+    elif isinstance(o, VDyn):
+        o = D.spec_view_for_attr(I, o, name, STR_METHODS, MAP_METHODS, SEQ_METHODS)
     if isinstance(o, VObj):
         I.ver.on_field_read(I, o, name)
         if name in o.fields:
@@ -644,7 +677,19 @@ def get_attribute(I, o, name, default=_NOCONST):
         if name in MAP_METHODS:
             raise Unsupported("dict method %s on a dict-shaped record" % name)
     elif isinstance(o, VRec):
-        if name in o.fields:
+        vs = getattr(o.t, "variants", None)
+        if vs is not None and name in o.fields:
+            # tagged union of dataclasses: the field exists only on the classes that declare it
+            if name == "_cls":
+                if I.spec:
+                    return o.fields[name]      # the tag is visible to specifications only
+            else:
+                owners = [c for c, fs in vs.items() if name in fs]
+                if I.spec or len(owners) == len(vs):
+                    return o.fields[name]
+                if owners and I.path.branch(z3.Or([o.fields["_cls"].e == z3.StringVal(c) for c in owners])):
+                    return o.fields[name]
+        elif name in o.fields:
             return o.fields[name]
         for (prefix, mname), impl in REC_METHODS.items():
             if mname == name and o.t.nm.startswith(prefix):
@@ -733,6 +778,9 @@ def get_attribute(I, o, name, default=_NOCONST):
     if default is not _NOCONST:
         return default
     if I.spec:
+        if isinstance(o, (VStr, VInt, VReal, VBool, VNone, VSeq, VMap)):
+            # a builtin value without that attribute: the operation is undefined (unconstrained), not a spec typo
+            raise SpecUndef("attribute %s of %s" % (name, type(o).__name__))
         raise Unsupported("attribute %s of %s" % (name, type(o).__name__))
     I.raise_exc("AttributeError", name)
 
@@ -751,6 +799,8 @@ def callable_un_func(I, f):
 def call(I, f, args, kwargs, node=None):
     if not I.spec:
         f = I.force(f)
+    elif isinstance(f, VUndef):
+        return VUndef()
     elif isinstance(f, VOptObj):
         # a possibly-absent callable used inside a specification / sort key: only when it is known to be present
         if not I.path.known(f.present):
@@ -796,6 +846,8 @@ def call(I, f, args, kwargs, node=None):
                     I.fn_stack.pop()
             return I.call_ast(f, args, kwargs)
         if f.kind == "builtin":
+            if I.spec and any(isinstance(a, VUndef) for a in args):
+                return VUndef()
             return f.impl(I, args, kwargs)
         if f.kind == "bmethod":
             return call_bmethod(I, f.selfv, f.name, args, kwargs)
@@ -955,22 +1007,40 @@ def instantiate(I, cls, args, kwargs):
         return VExc(cls.name, args)
     if cls.rec is not None:
         t = cls.rec
-        names = list(t.fields)
+        ci = cls.module.classes.get(cls.name) if cls.module else None
+        variants = getattr(t, "variants", None)
+        own = None
+        if variants is not None and cls.name in variants:
+            own = variants[cls.name]
+            names = [fn for fn, _ in ci.fields] if ci is not None else list(own)
+        else:
+            names = list(t.fields)
         vals = {}
         for i, a in enumerate(args):
+            if i >= len(names):
+                I.raise_exc("TypeError", "too many positional arguments")
             vals[names[i]] = a
         vals.update(kwargs)
-        ci = cls.module.classes.get(cls.name) if cls.module else None
-        for fn in names:
+        if own is not None:
+            for k2 in vals:
+                if k2 not in own:
+                    I.raise_exc("TypeError", "unexpected keyword argument %s" % k2)
+            vals["_cls"] = VStr(cls.name)
+        for fn in list(t.fields):
             if fn not in vals:
+                if own is not None and fn not in own:
+                    # a field of another class of the union: unspecified filler (never readable through this value)
+                    vals[fn] = t.fields[fn].wrap(I.default_of(t.fields[fn]))
+                    continue
                 dflt = None
                 if ci is not None:
                     for (n2, d) in ci.fields:
                         if n2 == fn:
                             dflt = d
-                if dflt is None:
+                dv = _dataclass_default(I, dflt, cls.module) if dflt is not None else None
+                if dv is None:
                     I.raise_exc("TypeError", "missing field %s" % fn)
-                vals[fn] = I.ev(dflt, Env(None, cls.module))
+                vals[fn] = dv
         out = {}
         for fn, ft in t.fields.items():
             out[fn] = ft.wrap(unwrap(vals[fn], ft))
@@ -997,10 +1067,14 @@ def instantiate(I, cls, args, kwargs):
             for fn, d in ci.fields:
                 if fn in vals:
                     o.fields[fn] = vals[fn]
-                elif d is not None:
-                    o.fields[fn] = I.ev(d, Env(None, cls.module))
                 else:
-                    I.raise_exc("TypeError", "missing field %s" % fn)
+                    dv = _dataclass_default(I, d, cls.module) if d is not None else None
+                    if dv is None:
+                        I.raise_exc("TypeError", "missing field %s" % fn)
+                    o.fields[fn] = dv
+                ft = tobj.fields.get(fn) if tobj is not None else None
+                if ft is not None:
+                    o.fields[fn] = I.coerce_to(o.fields[fn], I.ver.types.parse(ft) if isinstance(ft, str) else ft)
         return o
     bt = BUILTIN_TYPES.get(cls.name)
     if bt is not None:
@@ -1008,9 +1082,27 @@ def instantiate(I, cls, args, kwargs):
     raise Unsupported("instantiate %s" % cls.name)
 
 
+def _dataclass_default(I, d, module):
+    """default of a dataclass field: a plain expression, or dataclasses.field(default=..., default_factory=...)"""
+    if isinstance(d, ast.Call) and ((isinstance(d.func, ast.Name) and d.func.id == "field") or
+                                    (isinstance(d.func, ast.Attribute) and d.func.attr == "field")):
+        for kw in d.keywords:
+            if kw.arg == "default":
+                return I.ev(kw.value, Env(None, module))
+            if kw.arg == "default_factory":
+                return I.call(I.ev(kw.value, Env(None, module)), [], {})
+        return None
+    return I.ev(d, Env(None, module))
+
+
 # =============================================================== builtin functions
 
 def bi_len(I, args, kw):
+    v = args[0]
+    if isinstance(v, VDyn):
+        if not I.spec and not I.path.branch(D.has_len(v)):
+            I.raise_exc("TypeError", "object has no len()")
+        return VInt(D.length(I, v))
     v = I.force(args[0]) if not I.spec else args[0]
     if isinstance(v, VSeq):
         return VInt(v.n)
@@ -1053,6 +1145,8 @@ def real_to_int_trunc(r):
 def bi_int(I, args, kw):
     if not args:
         return VInt(0)
+    if isinstance(args[0], VDyn):
+        return D.to_int(I, args[0])
     v = I.force(args[0]) if not I.spec else args[0]
     if isinstance(v, VInt):
         return v
@@ -1137,6 +1231,8 @@ def sp_int_value(I, args, kw):
 def bi_float(I, args, kw):
     if not args:
         return VReal(0)
+    if isinstance(args[0], VDyn):
+        return D.to_float(I, args[0])
     v = I.force(args[0]) if not I.spec else args[0]
     if is_num(v):
         return VReal(to_real(v))
@@ -1163,6 +1259,8 @@ def bi_bool(I, args, kw):
 def bi_str(I, args, kw):
     if not args:
         return VStr("")
+    if isinstance(args[0], VDyn):
+        return VStr(D.to_str_term(I, args[0]))
     v = I.force(args[0]) if not I.spec else args[0]
     if isinstance(v, VStr):
         return v
@@ -1221,16 +1319,26 @@ def _minmax(I, args, kw, is_max):
         xs = I.force(args[0]) if not I.spec else args[0]
         if isinstance(xs, VTuple):
             args = xs.items
+        elif isinstance(xs, VEmptyList) and "default" in kw:
+            return kw["default"]
         elif isinstance(xs, VSeq):
             if "key" in kw:
                 raise Unsupported("min/max with key over list")
+            if "default" in kw:
+                if not I.path.branch(xs.n > 0):
+                    return kw["default"]
             I.require_defined(xs.n > 0, "ValueError", "min()/max() arg is an empty sequence")
             r = I.fresh_value(xs.et, "mx")
             i = z3.Int(I.path.fresh_name("mm_i"))
             j = I.path.fresh("mm_j", z3.IntSort())
             I.path.assume(z3.And(0 <= j, j < xs.n, I.eq(xs.get(j), r)))
             el = xs.et.wrap(z3.Select(xs.arr, i))
-            le = I.lt(el, r, False) if is_max else I.lt(r, el, False)
+            saved_spec = I.spec
+            I.spec = True      # `el` mentions the bound index
+            try:
+                le = I.lt(el, r, False) if is_max else I.lt(r, el, False)
+            finally:
+                I.spec = saved_spec
             I.path.assume(z3.ForAll([i], z3.Implies(z3.And(0 <= i, i < xs.n), le)))
             return r
         else:
@@ -1257,9 +1365,16 @@ def bi_max(I, args, kw):
 
 
 def bi_isinstance(I, args, kw):
-    v = I.force(args[0])
     tv = args[1]
     names = [x.name for x in tv.items] if isinstance(tv, VTuple) else [tv.name]
+    if isinstance(args[0], VDyn):
+        # symbolic answer (no 7-way fork on the runtime tag)
+        return VBool(D.isinstance_cond(args[0], names))
+    v = I.force(args[0])
+    if isinstance(v, VRec) and getattr(v.t, "variants", None) is not None:
+        if "object" in names or v.t.nm in names:
+            return VBool(True)
+        return VBool(z3.Or([v.fields["_cls"].e == z3.StringVal(nm) for nm in names if nm in v.t.variants] + [z3.BoolVal(False)]))
     if isinstance(v, JM.VJson):
         return VBool(JM.json_isinstance(I, v, names))
     return VBool(any(_isinst(I, v, nm) for nm in names))
@@ -1387,6 +1502,9 @@ def to_seq(I, v):
         return view_to_seq(I, VMapView(v, "keys"))
     if isinstance(v, VDictRec):
         return I.mk_list([VStr(k) for k in v.fields])
+    if isinstance(v, VStr):
+        i = z3.Int("ch_i")
+        return VSeq(z3.Lambda([i], z3.SubString(v.e, i, 1)), z3.Length(v.e), TStr, "list")
     if isinstance(v, VRange) and v.step == 1:
         lo, hi = to_int(v.lo), to_int(v.hi)
         i = z3.Int("rg_i")
@@ -1410,7 +1528,7 @@ def view_to_seq(I, view):
     else:
         keys = listing_of_dom(I, m.dom, m.card, m.kt)
     if view.kind == "keys":
-        return keys
+        return D.key_seq_to_str(keys) if m.kt is D.TDKey else keys
     i = z3.Int("vw_i")
     ki = z3.Select(keys.arr, i)
     if view.kind == "values":
@@ -1471,6 +1589,8 @@ def bi_dict(I, args, kw):
         if hasattr(v, "aggs"):
             m.aggs = dict(v.aggs)
         return m
+    if isinstance(v, (VInt, VReal, VBool, VNone)):
+        I.raise_exc("TypeError", "object is not iterable")
     raise Unsupported("dict() of %s" % type(v).__name__)
 
 
@@ -1528,7 +1648,8 @@ def bi_sorted(I, args, kw):
     if isinstance(v, (VMapView, VMap)) and key is None:
         view = v if isinstance(v, VMapView) else VMapView(v, "keys")
         if view.kind == "keys" and isinstance(view.m, VMap):
-            return listing_of_dom(I, view.m.dom, view.m.card, view.m.kt, sorted_=True)
+            r = listing_of_dom(I, view.m.dom, view.m.card, view.m.kt, sorted_=True)
+            return D.key_seq_to_str(r) if view.m.kt is D.TDKey else r
     if isinstance(v, VSet) and key is None:
         return listing_of_dom(I, v.dom, v.card, v.kt, sorted_=True)
     if isinstance(v, VEmptySet) or isinstance(v, VEmptyList):
@@ -1592,8 +1713,19 @@ def sort_seq(I, v, key, reverse=False):
             _k0 = keyof
             keyof = lambda e: VTuple(_k0(e).items[:nord])
     ki, kj = keyof(z3.Select(res.arr, i)), keyof(z3.Select(res.arr, j))
-    le = I.lt(kj, ki, False) if reverse else I.lt(ki, kj, False)
-    keq = I.eq(ki, kj)
+    if isinstance(ki, VDyn) and not I.spec:
+        # python orders JSON-like values only number/number and string/string: anything else is a TypeError
+        allstr = z3.ForAll([i], z3.Implies(z3.And(0 <= i, i < n), D.is_str(ki.e)))
+        allnum = z3.ForAll([i], z3.Implies(z3.And(0 <= i, i < n), D.is_num(ki.e)))
+        if not p.branch(z3.Or(allstr, allnum, n <= 1)):
+            I.raise_exc("TypeError", "'<' not supported between these sort keys")
+    saved_spec = I.spec
+    I.spec = True      # the keys mention the bound indices i, j: compare them as total terms, never fork
+    try:
+        le = I.lt(kj, ki, False) if reverse else I.lt(ki, kj, False)
+        keq = I.eq(ki, kj)
+    finally:
+        I.spec = saved_spec
     # `sort_facts=False` on a contract: the order produced by sorted()/sort() is irrelevant to its clauses, only the
     # permutation facts are assumed (fewer assumptions: sound; keeps string-ordering atoms out of the goals)
     if getattr(I.cur_contract, "sort_facts", True):
@@ -1920,7 +2052,8 @@ BUILTIN_FUNCS = {
     "opos": sp_opos,
     "choose": gh_choose, "map_set_all": gh_map_set_all,
     "map_put": sp_map_put, "map_del": sp_map_del, "perm_of": sp_perm_of, "enc_eq": sp_enc_eq,
-    "is_str": (lambda I, args, kw: VBool(isinstance(I.force(args[0]) if not I.spec else args[0], VStr))),
+    "is_str": (lambda I, args, kw: VBool(D.is_str(args[0].e)) if isinstance(args[0], VDyn) else
+               VBool(isinstance(I.force(args[0]) if not I.spec else args[0], VStr))),
     "lemma_pigeonhole": gh_lemma_pigeonhole, "int_parses": sp_int_parses, "int_value": sp_int_value,
     "nan": sp_nan, "is_nan": sp_is_nan,
     "len": bi_len, "int": bi_int, "float": bi_float, "bool": bi_bool, "str": bi_str, "abs": bi_abs,
@@ -2154,6 +2287,13 @@ def map_get(I, m, k, default):
     present = z3.Select(m.dom, kk)
     I.ver.on_map_read(I, m, kk, guard=present)
     val = m.get(kk)
+    D.key_fact(I, m, kk)
+    if m.vt is TDyn and not isinstance(default, VDyn):
+        try:
+            # a JSON-like default ({} / [] / 0 / "") joins the Dyn value without forking the path
+            default = VDyn(D.to_dyn(default))
+        except TypeError:
+            pass
     sp = z3.simplify(present)
     if z3.is_true(sp):
         return val
@@ -2168,7 +2308,14 @@ def map_get(I, m, k, default):
             r = t.wrap(z3.If(present, unwrap(val, t), t.none()))
             return r
         if not isinstance(val, (VSeq, VMap, VSet)):
-            return I.ite(present, val, default)
+            r = I.ite(present, val, default)
+            if isinstance(r, VDyn) and not I.spec:
+                # name the result: chains of d.get(k, {}) would otherwise nest if-then-else terms inside selectors,
+                # which the solver expands exponentially
+                g = VDyn(I.path.fresh("dget", r.e.sort()))
+                I.path.assume(g.e == r.e)
+                return g
+            return r
     except (Unsupported, TypeError):
         pass
     if I.spec:
@@ -2223,7 +2370,7 @@ def map_method(I, m, name, args, kw):
         other = I.force(args[0]) if args else VDictRec(kw)
         if isinstance(other, VDictRec):
             for k2, v2 in other.fields.items():
-                map_store(I, m, z3.StringVal(k2), v2)
+                map_store(I, m, unwrap(VStr(k2), m.kt), v2)
             return VNone()
         if isinstance(other, VMap) and other.kt == m.kt and other.vt == m.vt and const_of(VInt(m.card)) == 0 \
                 and (m.order is None or other.order is not None) and not I.ver._aggs_for(m):
@@ -2501,7 +2648,16 @@ def str_method(I, s, name, args, kw):
     if name == "split":
         return I.ver.split_term(I, s, args, kw)
     if name == "format":
-        return I.ver.opaque_str("format", VTuple([s] + list(args)), I)
+        # str.format: an uninterpreted function of the template and the arguments; with a non-constant template it
+        # may raise (KeyError / IndexError / ValueError for unknown fields, bad indexes, malformed specs)
+        if not I.spec and s.concrete() is None:
+            if I.path.branch(I.path.fresh("format_raises", z3.BoolSort())):
+                raise PyRaise(VExc("Exception", [], any_subclass=True))
+        items = [s] + list(args) + [kw[k] for k in sorted(kw)]
+        try:
+            return I.ver.opaque_str("format_" + "_".join(sorted(kw)), VTuple(items), I)
+        except Exception:
+            return VStr(I.path.fresh("ostr_format", z3.StringSort()))
     raise Unsupported("str.%s" % name)
 
 
@@ -2553,7 +2709,11 @@ def comprehension(I, n, env):
         if isinstance(base, VEmptyList):
             return VEmptyList()
         mk_item = lambda idx: base.get(idx)
-    I.ver.note_assumption("comprehension bodies are evaluated as pure total expressions")
+    if not I.spec and getattr(I.ver.cur, "strict_comps", False):
+        if not _check_comp_body(I, n, gen, env, base, mk_item):
+            return VEmptyList()      # empty source: the body is never evaluated
+    else:
+        I.ver.note_assumption("comprehension bodies are evaluated as pure total expressions")
     p = I.path
     i = z3.Int(p.fresh_name("cp_i"))
     saved = I.spec
@@ -2562,9 +2722,13 @@ def comprehension(I, n, env):
         e2 = Env(env, env.module)
         I.assign_spec(gen.target, mk_item(i), e2)
         conds = [I.truth(I.ev(c, e2)) for c in gen.ifs]
+        if conds and z3.is_false(z3.simplify(z3.And(conds))):
+            return VEmptyList()     # the filter rejects every element (e.g. isinstance(x, dict) over a list of strings)
         elt = I.ev(n.elt, e2)
     finally:
         I.spec = saved
+    if isinstance(elt, VDictRec):
+        elt = VDyn(D.to_dyn(elt))
     et = typeof(elt)
     lt = I.ver.comp_type(I, n)
     if lt is not None:
@@ -2617,6 +2781,43 @@ def comprehension(I, n, env):
                        patterns=hit_pats))
     res.filt = (sel, rank, base)
     return res
+
+
+def _check_comp_body(I, n, gen, env, base, mk_item):
+    """contracts with strict_comps=True: exceptions raised inside a comprehension / generator body are not ignored.
+    The filter and element expressions are executed once in exec mode (forking, raising) for an *arbitrary*
+    element index of the source; a python exception raised there propagates from the comprehension.  This
+    over-approximates short-circuiting consumers (any/all stop early): it can only report more exceptions.
+    The value of the comprehension is still the total (spec mode) encoding built afterwards."""
+    p = I.path
+    if not p.branch(base.n > 0):
+        return False
+    j = p.fresh("cp_elem", z3.IntSort())
+    p.assume(z3.And(0 <= j, j < base.n))
+    e2 = Env(env, env.module)
+    I.assign(gen.target, mk_item(j), e2)
+    for c in gen.ifs:
+        if not I.test(I.ev(c, e2)):
+            return True
+    I.ev(n.elt, e2)
+    return True
+
+
+def _has_ite(e):
+    seen = set()
+    st = [e]
+    while st:
+        x = st.pop()
+        if x.get_id() in seen:
+            continue
+        seen.add(x.get_id())
+        if z3.is_app(x):
+            if x.decl().kind() == z3.Z3_OP_ITE:
+                return True
+            st.extend(x.children())
+        else:
+            return True   # quantifier / lambda / bound variable: not usable inside a trigger either
+    return False
 
 
 def to_seq_items(I, src):
@@ -2855,6 +3056,8 @@ def _iter_protocol(I, it):
         return ("map", m, it.kind)
     if isinstance(it, VSet):
         return ("set", it, "keys")
+    if isinstance(it, VStr):
+        return ("seq", z3.Length(it.e), lambda i: VStr(z3.SubString(it.e, i, 1)))
     raise Unsupported("iteration over %s" % type(it).__name__)
 
 
